@@ -131,7 +131,7 @@ pub async fn start_controller<F: AsyncObjectiveFunction>(
                     }
                 }
             }
-            _ = &mut in_abort_signal_recv => {
+            _ = &mut in_abort_signal_recv, if !abort_signal_received => {
                 if !abort_signal_received {
                     abort_signal_received = true;
                     abort_signal_sender.broadcast(()).await.unwrap();
